@@ -43,6 +43,23 @@ def pools(seed, nq=6, nt=7):
     return Q, T
 
 
+def pools_onehot(seed, nq=6, nt=8):
+    """a database of one-hot, low-complexity motifs (consensus sequences): many comparisons have no similarity at all, so p-values
+    of exactly 1 occur and fewer than n_nearest targets may be better than 'nothing'"""
+    rng = random.Random(seed * 31 + 7)
+
+    def oh(L):
+        letters = rng.sample(range(4), 2)
+        a = numpy.zeros((4, L))
+        for j in range(L):
+            a[letters[0] if rng.random() < 0.75 else letters[1], j] = 1
+        return a
+    Q = [oh(L) for L in [4, 4, 5, 7, 5, 6][:nq]]
+    T = [oh(rng.randint(4, 6)) for _ in range(nt)]
+    T[nt - 2] = Q[2].copy()
+    return Q, T
+
+
 def row_digest(res, qi):
     # res: (5 or 6, n_queries, n_targets) float64 tensor
     a = res[:, qi].contiguous().numpy()
@@ -51,9 +68,9 @@ def row_digest(res, qi):
 
 def run_hist(c):
     """c: seed, threads, qidx, rc, tbins, n_nearest -> events"""
-    Q, T = pools(c["seed"])
+    Q, T = pools_onehot(c["seed"]) if c.get("onehot") else pools(c["seed"])
     kw = dict(reverse_complement=c["rc"], n_target_bins=c["tbins"] or None, n_score_bins=c.get("sbins", 100))
-    cfgkey = (c["seed"] % 1000) * 8 + (4 if c["rc"] else 0) + {0: 0, 100: 1, 30: 2}[c["tbins"]]
+    cfgkey = (c["seed"] % 1000) * 8 + (4 if c["rc"] else 0) + {0: 0, 100: 1, 30: 2}[c["tbins"]] + (100000 if c.get("onehot") else 0)
     evs = []
     before = numba.get_num_threads()
     try:
@@ -186,10 +203,31 @@ def run_poison(c):
     return evs
 
 
+def run_many(c):
+    """one call with more query columns in total than a 16-bit offset can address (annotating thousands of seqlets at once):
+    every row must still be the row of its own query"""
+    Q, T = pools(c["seed"])
+    rng = random.Random(c["seed"] + 5)
+    base_q = [rand_pwm(rng, 5) for _ in range(6)]
+    kw = dict(reverse_complement=c["rc"], n_target_bins=None, n_score_bins=50)
+    solo = tomtom(base_q, [torch.from_numpy(t) for t in T], n_jobs=1, **kw)
+    n = c["n"]
+    res = tomtom([base_q[i % 6] for i in range(n)], [torch.from_numpy(t) for t in T], n_jobs=c["threads"], **kw)
+    evs = []
+    for i in list(range(0, 12)) + list(range(n - 600, n, 7)):
+        evs.append(dict(ev="row", qkey=7000000 + (c["seed"] % 1000) * 20 + (10 if c["rc"] else 0) + i % 6, dig=row_digest(res, i), threads=c["threads"], pos=i, len=5,
+                        st="ok", hist=[n]))
+    for i in range(6):          # the solo rows come LAST so that the first digest seen for a key is checked against them as well
+        evs.append(dict(ev="row", qkey=7000000 + (c["seed"] % 1000) * 20 + (10 if c["rc"] else 0) + i, dig=row_digest(solo, i), threads=1, pos=i, len=5, st="ok", hist=[6]))
+    return evs
+
+
 def handler(case):
     evs = []
     for c in case["calls"]:
-        if c["kind"] == "hist":
+        if c["kind"] == "many":
+            evs += run_many(c)
+        elif c["kind"] == "hist":
             evs += run_hist(c)
         elif c["kind"] == "annotate":
             evs += run_annotate(c)
